@@ -28,7 +28,7 @@ Qed.
 
 Definition vals (l : list hentry) : list Z := map (fun e => dval (fst e)) l.
 Lemma last_val_vals : forall l, last_val l = hd_error (rev (vals l)).
-Proof. intros. unfold last_val, vals. rewrite <- map_rev. unfold hentry in *. destruct (rev l); simpl; reflexivity. Qed.
+Proof. intros. unfold last_val, vals. rewrite <- map_rev. destruct (rev l); simpl; reflexivity. Qed.
 Lemma vals_HRlen : forall l l', vals l = vals l' -> HRlen l l'.
 Proof.
   intros l l' H. split.
@@ -56,6 +56,9 @@ Proof.
   - inv Ha. inv Hb. split; [congruence|]. intros. congruence.
   - inv Ha. inv Hb. apply IHa; auto.
 Qed.
+
+Lemma Forall2_single_r : forall {A B} (R : A -> B -> Prop) l y, Forall2 R l [y] -> exists x, l = [x] /\ R x y.
+Proof. intros A B R l y H. inv H. inv H4. eauto. Qed.
 
 Section DedupProofs.
   Variable g : gen.
@@ -203,7 +206,7 @@ Section DedupProofs.
         repeat split; try lia.
         unfold cache_of in *. rewrite fold_left_app in *. simpl in *.
         rewrite (rcache_unrewarded_fb Hn _ H0) in *.
-        rewrite C. unfold dd_replay_cache at 2 3. rewrite Hn. simpl. reflexivity.
+        rewrite C. unfold dd_replay_cache at 1 3. rewrite Hn. simpl. reflexivity.
       + inv H2. simpl. repeat split; try lia.
         rewrite C. unfold cache_of. apply (rcache_cong_nofb Hn).
         apply Forall2_app; [clear; induction h1; constructor; auto|].
@@ -233,12 +236,12 @@ Section DedupProofs.
       apply Forall2_app_inv_r in Hw. destruct Hw as (a & rest & Ha & Hrest & ->).
       apply Forall2_app_inv_r in Hrest. destruct Hrest as (b' & c & Hb' & Hc & ->).
       apply Forall2_app_inv_r in Hb'. destruct Hb' as (b & one & Hb & Hone & ->).
-      inv Hone. inv H5. destruct x as [dy ry]. destruct H3 as [Hy _]. simpl in Hy. subst ry.
+      apply Forall2_single_r in Hone. destruct Hone as ([dy ry] & -> & [Hy _]). simpl in Hy. subst ry.
       assert (unrewarded c) as Uc by (eapply HRw_unrewarded_r; [exact Hc | apply expand_unrewarded; assumption]).
       assert (Reach g anyfed i1 ((a ++ b) ++ (d', Some r) :: c)) as HR'.
-      { eapply R_fb with (dx := dy) (d := d); eauto; [|exact I].
-        replace ((a ++ b) ++ (dy, None) :: c) with (a ++ ((b ++ [(dy, None)]) ++ c)); [assumption|].
-        rewrite <- !app_assoc. reflexivity. }
+      { assert (Reach g anyfed (dd_in g s) ((a ++ b) ++ (dy, None) :: c)) as HRi2
+          by (clear - HRi; rewrite <- !app_assoc in *; simpl in *; exact HRi).
+        eapply R_fb with (dx := dy) (d := d); [exact HRi2 | exact Uc | exact I | exact Ef]. }
       exists ((a ++ b) ++ (d', Some r) :: c). split; [assumption|].
       rewrite expand_app, expand_cons. simpl.
       destruct (Hm (dd_in g s) d r) as (K' & S' & _). rewrite Ef in K', S'. simpl in K', S'.
@@ -274,13 +277,18 @@ Section DedupProofs.
   Qed.
 
   (* --- observable recovery ---------------------------------------------------------------------- *)
+  Lemma dd_obs_eq : forall x : dst, obs D x =
+    Obs (dd_np g x) (dd_nf g x) [] (dd_cache g x) [] (if needs_fb g then [obs g (dd_in g x)] else []).
+  Proof. reflexivity. Qed.
+
   Theorem dedup_obs_rec : obs_rec g anyfed HRw -> meta_pres g -> obs_rec D keyfed HRk.
   Proof.
     intros Hg Hm s h HR h' Hh.
     destruct (dd_recover_spec h') as (A & B & C & E).
     destruct (dd_reach_counts _ _ HR) as (A' & B' & C').
     pose proof (HRk_HRw _ _ Hh) as Hw.
-    simpl obs. rewrite A, B, C, A', B', C', (HRw_length _ _ Hw), (HRw_nrew _ _ Hw), (HRk_cache _ _ Hh).
+    set (rr := recover D (init D) h') in *.
+    rewrite !dd_obs_eq. rewrite A, B, C, A', B', C', (HRw_length _ _ Hw), (HRw_nrew _ _ Hw), (HRk_cache _ _ Hh).
     destruct (needs_fb g) eqn:Hn; [|reflexivity].
     destruct (dd_reach_inner_fb Hn Hm _ _ HR) as (hi & HRi & Hwi).
     simpl. rewrite E. do 2 f_equal.
